@@ -402,7 +402,14 @@ class StreamReal:
                 raise ValueError(act)
         except Exception as e:          # an exception of the code under test is an observation
             self.order.append("raised:" + type(e).__name__)
-        s.pump()
+        try:
+            s.pump(limit=300)
+        except RuntimeError:
+            # readiness keeps being reported and handled without progress: on a real selector loop
+            # this is a busy loop.  Reported as an observation, never a harness crash.
+            p = self.proj()
+            p["st"] = "livelock"
+            return p
         return self.proj()
 
     def close(self):
